@@ -164,9 +164,12 @@ def getvarpnc(f, varkeys, coordkeys=None, copy=True):
             coordvar = f.variables[coordkey]
             propd = dict([(k, getattr(coordvar, k))
                           for k in coordvar.ncattrs()])
+            cvals = coordvar[...]
+            if copy:
+                cvals = cvals.copy()
             outf.createVariable(coordkey, coordvar.dtype.char,
                                 coordvar.dimensions,
-                                values=coordvar[...], **propd)
+                                values=cvals, **propd)
             for dk in coordvar.dimensions:
                 if dk not in outf.dimensions:
                     dv = outf.createDimension(dk, len(f.dimensions[dk]))
